@@ -242,4 +242,16 @@ def NoHiddenEnd : List Ev → Prop
   | .hidden r :: evs => r.endSequence = false ∧ NoHiddenEnd evs
   | _ :: evs => NoHiddenEnd evs
 
+/-! ## the sequence clause -/
+
+/-- what `sequences()` promises about one `LineSequence` **as the code is**: resuming it yields
+rows without `end_sequence` followed by exactly one `end_sequence` row, `end` is that row's
+address, `start` is the first row's address — or 0 when the end row is the only row (finding
+C04-2; the property asks for the first = end address there). -/
+def SeqOk (h : Params) (s : Seq) : Prop :=
+  ∃ (rows : List Row) (last : Row),
+    resume h s = rows.map Ev.row ++ [Ev.row last] ∧ last.endSequence = true ∧
+    (∀ r ∈ rows, r.endSequence = false) ∧ s.end = last.address ∧
+    s.start = (match rows with | [] => 0 | r :: _ => r.address)
+
 end Gimli.Spec.Line
